@@ -599,6 +599,80 @@ pub fn decode_inputs(tier: Tier) -> Vec<ByteFamily> {
             }),
         });
     }
+    // (8d) every truncation of dialect inputs (non-canonical but accepted encodings must be
+    // 'incomplete' at every cut as well)
+    {
+        let mut items: Vec<Vec<u8>> = vec![];
+        for f in dialect(tier) {
+            let stride = (f.size / tier.pick(200, 800)).max(1);
+            let mut i = 0;
+            while i < f.size {
+                items.push((f.gen)(i));
+                i += stride;
+            }
+        }
+        let mut bounds = vec![];
+        let mut total = 0u64;
+        for c in &items {
+            total += c.len() as u64;
+            bounds.push(total);
+        }
+        let n = items.len();
+        fams.push(ByteFamily {
+            name: "dialect.cuts".into(),
+            about: format!("every truncation (0..len-1) of {} dialect inputs (evenly spread over all dialect families: type-info variants, ids, strings, NOAR/length mismatches, MSIN/payload-length combinations)", n),
+            size: total,
+            gen: Box::new(move |i| {
+                let s = bounds.partition_point(|b| *b <= i);
+                let j = if s > 0 { i - bounds[s - 1] } else { i };
+                items[s][..j as usize].to_vec()
+            }),
+        });
+    }
+    // (8e) two length fields at once: every pair over a boundary set for (name length, unit length),
+    // (string length, name length), (raw length, name length), with little or with ample data behind
+    {
+        let lens: Vec<u32> = vec![0, 1, 2, 5, 0x7FFF, 0x8000, 0x8001, 0xC000, 0xFFF0, 0xFFFE, 0xFFFF];
+        let nl = lens.len();
+        let sp = Space::new(&[3, nl, nl, 2, 2]);
+        let s2 = sp.clone();
+        fams.push(ByteFamily {
+            name: "dialect.length_pairs".into(),
+            about: format!("a verbose argument with variable info whose two 16-bit length fields take ALL pairs over {:04x?}: (name, unit) of a uint32, (string, name), (raw, name); x byte order x {{40 bytes, 140000 bytes}} of data behind the lengths; LEN = 65535 or the short real length", lens),
+            size: sp.size(),
+            gen: Box::new(move |i| {
+                let c = s2.coords(i);
+                let big = c[3] == 1;
+                let ti: u32 = match c[0] {
+                    0 => TI_UINT | 3 | TI_VARI,
+                    1 => TI_STRG | TI_VARI,
+                    _ => TI_RAWD | TI_VARI,
+                };
+                let mut b = vec![if big { 0x23 } else { 0x21 }, 0, 0, 0, 0x41, 1, b'A', b'P', b'P', 0, b'C', b'T', b'X', 0];
+                b.extend_from_slice(&if big { ti.to_be_bytes() } else { ti.to_le_bytes() });
+                for l in [lens[c[1]], lens[c[2]]] {
+                    b.extend_from_slice(&if big { (l as u16).to_be_bytes() } else { (l as u16).to_le_bytes() });
+                }
+                let data = if c[4] == 0 { 40 } else { 140_000 };
+                b.extend((0..data).map(|k| if k % 9 == 8 { 0u8 } else { b'a' + (k % 23) as u8 }));
+                let len = b.len().min(65_535);
+                b[2] = (len >> 8) as u8;
+                b[3] = len as u8;
+                b
+            }),
+        });
+    }
+    // (8f) large inputs (maximal messages + follower, 0xFFFF length prefixes backed by data, long junk)
+    {
+        let larges = large_inputs();
+        let n = larges.len() as u64;
+        fams.push(ByteFamily {
+            name: "large".into(),
+            about: format!("{} large inputs: maximal (65535-byte) messages of each kind followed by a second message, 0xFFFF / 0xFFFE / 0x8000 length prefixes backed by 140000 data bytes under declared LEN 65535 / 30 / 22, 64-128 KiB of junk before two stored messages, messages that grow when re-serialised", n),
+            size: n,
+            gen: Box::new(move |i| larges[i as usize].1.clone()),
+        });
+    }
     fams
 }
 
@@ -697,6 +771,28 @@ pub fn large_inputs() -> Vec<(String, Vec<u8>)> {
                     b.resize(b.len() + 140_000, b'x');
                     v.push((format!("{} len-prefix {:#x} declared {} {}", what, l, declared, if big { "BE" } else { "LE" }), b));
                 }
+            }
+        }
+    }
+    // near-maximal messages with k arguments that GROW when re-serialised (variable info with name /
+    // unit size 0 is written back as size 1 + NUL; a string without terminator gains a NUL) and a
+    // raw filler up to the declared length
+    for big in [false, true] {
+        for k in [0usize, 1, 7, 8, 9, 16, 40, 200] {
+            for total in [65_535usize, 65_534, 65_500] {
+                let mut b = vec![if big { 0x23 } else { 0x21 }, 0, (total >> 8) as u8, total as u8, 0x41, (k + 1).min(255) as u8, b'A', b'P', b'P', 0, b'C', b'T', b'X', 0];
+                let w = |v: u32| if big { v.to_be_bytes() } else { v.to_le_bytes() };
+                for j in 0..k {
+                    b.extend_from_slice(&w(TI_UINT | 1 | TI_VARI)); // uint8 with variable info
+                    b.extend_from_slice(&[0, 0, 0, 0]); // name size 0, unit size 0
+                    b.push(j as u8);
+                }
+                b.extend_from_slice(&w(TI_RAWD));
+                let fill = total.saturating_sub(b.len() + 2);
+                let l16 = if big { (fill as u16).to_be_bytes() } else { (fill as u16).to_le_bytes() };
+                b.extend_from_slice(&l16);
+                b.extend((0..fill).map(|q| (q % 251) as u8));
+                v.push((format!("{} growing uint8 arguments + raw filler, LEN {} {}", k, total, if big { "BE" } else { "LE" }), b));
             }
         }
     }
